@@ -360,7 +360,7 @@ func init() {
 	facet.Register(facet.F[convgen.Case]{
 		Prop: "C08", Name: "nopanic",
 		Rule:  ntRule + "; capsule types included; every call (Convert, GetConversion, GetConversionUnsafe and the returned functions) runs under recover",
-		Quick: 60000, Thorough: 500000,
+		Quick: 120000, Thorough: 500000,
 		Gen: genCase(capsOpts),
 		Check: func(c *facet.Ctx, cs convgen.Case) error {
 			in, target, ok := build(cs)
@@ -398,7 +398,7 @@ func init() {
 	// ------------------------------------------------------------ conformant
 	facet.Register(facet.F[convgen.Case]{
 		Prop: "C08", Name: "conformant", Rule: ntRule,
-		Quick: 60000, Thorough: 500000,
+		Quick: 120000, Thorough: 500000,
 		Gen: genCase(baseOpts),
 		Check: func(c *facet.Ctx, cs convgen.Case) error {
 			in, target, ok := build(cs)
@@ -437,7 +437,7 @@ func init() {
 	facet.Register(facet.F[convgen.Case]{
 		Prop: "C08", Name: "identity",
 		Rule:  "target = the value's own type, half of the time with optional markers put on existing attributes; non-trivial when the value is compound, null, unknown or marked; distinct = hash of the case JSON",
-		Quick: 40000, Thorough: 300000,
+		Quick: 80000, Thorough: 300000,
 		Gen: genCase(idOpts),
 		Check: func(c *facet.Ctx, cs convgen.Case) error {
 			in, target, ok := build(cs)
@@ -476,7 +476,7 @@ func init() {
 	// ------------------------------------------------------------ idempotent
 	facet.Register(facet.F[convgen.Case]{
 		Prop: "C08", Name: "idempotent", Rule: ntRule,
-		Quick: 60000, Thorough: 500000,
+		Quick: 120000, Thorough: 500000,
 		Gen: genCase(baseOpts),
 		Check: func(c *facet.Ctx, cs convgen.Case) error {
 			in, target, ok := build(cs)
@@ -519,7 +519,7 @@ func init() {
 	facet.Register(facet.F[SoundIn]{
 		Prop: "C08", Name: "unknown-null/sound",
 		Rule:  "a wholly-known concrete value c (nulls at any depth) and an abstract value a obtained by weakening sub-values of c to unknowns that admit them (unrefined, not-null, numeric bounds, string prefixes, length bounds, DynamicVal when the target is placeholder-free); non-trivial when something was weakened, the target differs from c's type and Convert(c) succeeds; then Convert(a) must succeed and Admits(Convert(a), Convert(c))",
-		Quick: 50000, Thorough: 400000,
+		Quick: 100000, Thorough: 400000,
 		Gen: func(t *rapid.T) SoundIn {
 			if rapid.IntRange(0, 7).Draw(t, "dupmode") == 7 {
 				return genSoundDup(t)
@@ -616,7 +616,7 @@ func init() {
 	facet.Register(facet.F[TotalIn]{
 		Prop: "C08", Name: "safe/total",
 		Rule:  "source type S = type of a generated value, target = S edited with a bias to edits that have a safe conversion and without introducing placeholders; 1+3 values of exactly type S (known, null, unknown, marked, nested); non-trivial when GetConversion(S,T) is offered, T is placeholder-free and differs from S; then it must succeed on every value",
-		Quick: 50000, Thorough: 400000,
+		Quick: 100000, Thorough: 400000,
 		Gen: func(t *rapid.T) TotalIn {
 			cs := convgen.Pair(totalOpts).Draw(t, "case")
 			in := TotalIn{C: cs}
@@ -685,7 +685,7 @@ func init() {
 	facet.Register(facet.F[TypePair]{
 		Prop: "C08", Name: "safe-implies-unsafe",
 		Rule:  "pair of types (source with placeholders and capsules allowed; target = source edited, or unrelated, optional attributes and placeholders allowed); non-trivial when a safe conversion is offered and the types differ",
-		Quick: 60000, Thorough: 500000,
+		Quick: 120000, Thorough: 500000,
 		Gen: func(t *rapid.T) TypePair {
 			s := gen.Type(gen.TypeOpts{Depth: 3, Dynamic: true, Capsule: true}).Draw(t, "s")
 			if rapid.IntRange(0, 9).Draw(t, "unrelated") == 0 {
@@ -780,7 +780,7 @@ func registerRoundTrips() {
 	facet.Register(facet.F[spec.Num]{
 		Prop: "C08", Name: "roundtrip/number-string",
 		Rule:  "a number drawn by class (small, width boundaries, float64-derived, 512-bit decimals, low precision, zero/-0, infinities) converted number->string->number; every case counts except small integers; distinct = hash of the number spec",
-		Quick: 60000, Thorough: 500000,
+		Quick: 120000, Thorough: 500000,
 		Gen: func(t *rapid.T) spec.Num { return gen.Num(gen.NumOpts{}).Draw(t, "n") },
 		Check: func(c *facet.Ctx, n spec.Num) error {
 			v := n.Cty()
